@@ -2,6 +2,7 @@ import ApolloModel.Proofs.SchemaInvariants
 import ApolloModel.Properties.C29
 import ApolloModel.Properties.C14
 import ApolloModel.Properties.C16
+import ApolloModel.Proofs.SchemaBuildScalars
 /-
 C15 — Valid schemas are internally consistent.
 
@@ -313,6 +314,64 @@ theorem valid_implies_invariants_full3 (limit : Nat) (M : MSchemaH) (h : Accepts
     exact (C14.built_type_has_all_members M.doc M.docWellFormed he n t hf).1
   · intro p hp
     exact (C14.value_rule_iff_spec M.valueSchema M.valueSchemaClosed p.1 (M.argTypesDefined p hp) p.2).mp (hvals p hp)
+
+
+/-! ### growth 4: the former hypotheses as consequences -/
+
+/-- The built-in scalar clause without its hypotheses: on the type map of an error-free build (any `refs`: the named
+    types each definition refers to), after the bookkeeping of `validate_schema` the map contains exactly the
+    referenced built-in scalars.  "Unique names" and "a type named like a built-in scalar is the built-in
+    definition" now come from `C14.schema_build_iff_spec` (`SchemaBuild.build_guarantees_scalar_hypotheses`). -/
+theorem validated_scalars_exact_of_build (ds : List SchemaBuild.Def) (hwf : SchemaBuild.WellFormed ds)
+    (hb : (SchemaBuild.build (SchemaBuild.Builder.new false false) [ds]).errors = [])
+    (refs : SchemaBuild.Name → List SchemaBuild.Name) (dirRefs : List SchemaBuild.Name)
+    (order : List Scalars.Name → List Scalars.Name) (ho : Scalars.IsOrder order) :
+    scalarsInv (Scalars.bookkeeping order
+      (SchemaBuild.scalarsView refs dirRefs (SchemaBuild.build (SchemaBuild.Builder.new false false) [ds]).types)) = true :=
+  let h := SchemaBuild.build_guarantees_scalar_hypotheses ds hwf hb refs dirRefs
+  validated_scalars_exact order ho _ h.1 h.2
+
+def InvI (M : MSchemaH) : Prop :=
+  InvH M ∧
+  -- no enum value and no directive (nor directive argument) of the document has a reserved name
+  (∀ t ∈ M.introduced.types, ∀ vs, t.members = .values vs → ∀ v ∈ vs, v.builtIn = false → ¬ SchemaNames.Spec.Reserved v.chars) ∧
+  (∀ d ∈ M.introduced.directives, (d.name.builtIn = false → ¬ SchemaNames.Spec.Reserved d.name.chars) ∧
+    ∀ a ∈ d.args, a.builtIn = false → ¬ SchemaNames.Spec.Reserved a.chars) ∧
+  -- the type map: names pairwise different; an entry named like a built-in type is the built-in definition
+  ((SchemaBuild.build (SchemaBuild.Builder.new false false) [M.doc]).types.map (·.name)).Nodup ∧
+  (∀ t ∈ (SchemaBuild.build (SchemaBuild.Builder.new false false) [M.doc]).types,
+    t.name ∈ SchemaBuild.builtinTypeNames → t.builtin = true) ∧
+  -- no definition of the document takes the name of a built-in type
+  (∀ d ∈ M.doc, d.defKind.isSome = true → d.name ∉ SchemaBuild.builtinTypeNames) ∧
+  -- after validation the map contains exactly the referenced built-in scalars, whatever the references are
+  (∀ refs dirRefs order, Scalars.IsOrder order →
+    scalarsInv (Scalars.bookkeeping order
+      (SchemaBuild.scalarsView refs dirRefs (SchemaBuild.build (SchemaBuild.Builder.new false false) [M.doc]).types)) = true)
+
+/-- `valid_implies_invariants_full3` with the clauses that used to be hypotheses or oracle-only stated as
+    consequences: reserved names of enum values and of directives / directive arguments (from
+    `C14.reserved_rule_iff_spec`), and the build facts the "exactly the referenced built-in scalars" clause
+    depends on (from `C14.schema_build_iff_spec`), with that clause itself. -/
+theorem valid_implies_invariants_full4 (limit : Nat) (M : MSchemaH) (h : AcceptsH limit M) : InvI M := by
+  have h3 := valid_implies_invariants_full3 limit M h
+  have hbuild := h.2.1
+  have hspec := h3.2.1
+  have hres := h3.2.2.2.2.1
+  have hfacts := SchemaBuild.built_types_facts M.doc M.docWellFormed hbuild
+  refine ⟨h3, ?_, ?_, hfacts.1, hfacts.2, ?_, ?_⟩
+  · intro t ht vs hm v hv hb
+    exact hres .enumValue v (.enumValue t vs v ht hm hv) hb
+  · intro d hd
+    exact ⟨fun hb => hres .directive d.name (.directive d hd) hb,
+      fun a ha hb => hres .argument a (.directiveArg d a hd ha) hb⟩
+  · intro d hd hk hmem
+    have := hspec.uniqueTypes
+    rw [List.nodup_append] at this
+    refine this.2.2 _ hmem _ ?_ rfl
+    unfold SchemaBuild.typeDefNames
+    exact List.mem_map.mpr ⟨d, List.mem_filter.mpr ⟨hd, hk⟩, rfl⟩
+  · intro refs dirRefs order ho
+    exact validated_scalars_exact_of_build M.doc M.docWellFormed hbuild refs dirRefs order ho
 
 -- Non-vacuity
 example : Accepts 32 ⟨[[⟨true, 1⟩], [⟨false, 0⟩]], [⟨true, []⟩, ⟨true, [0]⟩, ⟨false, [1, 0]⟩],
